@@ -259,7 +259,8 @@ func (e *Env) eval(x Expr) SVal {
 				return v
 			}
 		}
-		if g, ok := c.prog.Ghosts[n.Name]; ok && len(g.Keys) == 0 {
+		if g, ok := c.prog.Ghosts[n.Name]; ok {
+			// a ghost function named without arguments denotes the whole map (for "nothing changed" clauses)
 			return SVal{T: e.heap(e.cur, c.ghostName(g, e))}
 		}
 		if e.pkg != nil {
@@ -475,7 +476,7 @@ func (e *Env) selectField(x SVal, fi int) SVal {
 		res := c.sel(e.heap(e.cur, fn), x.T)
 		if e.inSpec == nil && e.cur != nil && !e.inQuant {
 			c.bornNow(res)
-			c.assumeLoadedRef(e.cur, fn, u.Field(fi).Type(), res)
+			c.assumeLoadedRef(e.cur, fn, u.Field(fi).Type(), res, x.T)
 		}
 		return SVal{T: res, Type: u.Field(fi).Type()}
 	}
@@ -525,7 +526,7 @@ func (c *Ctx) ghostName(g *GhostDecl, e0 *Env) string {
 	s, _ := e.specSort(g.Ret)
 	for i := len(g.Keys) - 1; i >= 0; i-- {
 		ks, _ := e.specSort(g.Keys[i].Type)
-		s = ArrSort(ks, s)
+		s = ArrSort(c.keySort(ks), s)
 	}
 	return c.heapName("ghost!"+g.Name, s)
 }
@@ -616,6 +617,11 @@ func (e *Env) evalCall(n *ECall) SVal {
 			b = SVal{T: app(SReal, "to_real", b.T)}
 		}
 		return SVal{T: app(SReal, "powR", a.T, b.T)}
+	case "timeIsZero":
+		need(1)
+		a := arg(0)
+		c.declareFun("time.iszero", []Sort{a.T.Sort}, SBool)
+		return SVal{T: app(SBool, "time.iszero", a.T)}
 	case "bytestr":
 		// abstract content of a []byte value
 		need(1)
@@ -660,6 +666,8 @@ func (e *Env) evalCall(n *ECall) SVal {
 			}
 		} else if u, ok := n.Args[1].(*EUn); ok {
 			_ = u
+		} else if s, ok := n.Args[1].(*EStr); ok {
+			tyname = s.V
 		}
 		if strings.HasPrefix(tyname, "ptr_") {
 			tyname = "*" + tyname[4:]
@@ -670,6 +678,22 @@ func (e *Env) evalCall(n *ECall) SVal {
 		}
 		c.declareFun("itag", []Sort{SInt}, SInt)
 		return SVal{T: mk(SBool, fmt.Sprintf("(and (not (= %s 0)) (= (itag %s) %s))", x.T.S, x.T.S, c.typeTag(t).S))}
+	case "as":
+		// as(x, "T"): the value held by interface x, viewed as concrete type T (meaningful when typeis(x, "T"))
+		need(2)
+		x := arg(0)
+		s, ok := n.Args[1].(*EStr)
+		if !ok {
+			return e.errf("as: second argument must be a type name in quotes")
+		}
+		t := e.lookupType(s.V)
+		if t == nil {
+			return e.errf("as: unknown type %q", s.V)
+		}
+		ts := c.sortOf(t)
+		un := "unbox!" + sanitize(string(ts))
+		c.declareFun(un, []Sort{SInt}, ts)
+		return SVal{T: app(ts, un, x.T), Type: t}
 	case "select":
 		need(2)
 		return SVal{T: tSelect(arg(0).T, arg(1).T)}
@@ -689,7 +713,7 @@ func (e *Env) evalCall(n *ECall) SVal {
 		}
 		t := e.heap(e.cur, c.ghostName(g, e))
 		for i := range n.Args {
-			t = tSelect(t, arg(i).T)
+			t = tSelect(t, c.wrapKey(arg(i).T))
 		}
 		ge := &Env{c: c, vars: map[string]SVal{}, pkg: c.prog.typesPkg(g.Pkg), g: tTrue}
 		if ge.pkg == nil {
